@@ -1483,7 +1483,7 @@ def str_method(interp, st, recv, name, args, kwargs, node):
             notf = VTuple([recv, mk_like(recv, mk_str('')), mk_like(recv, mk_str(''))])
             yield from interp.alts(st, [(i >= 0, found), (i < 0, notf)])
             return
-        if name == 'rpartition' and hasattr(z3, 'LastIndexOf'):
+        if name == 'rpartition':
             sep = args[0]
             if not same(sep):
                 yield st, exc(TypeError, "must be str/bytes")
@@ -1491,12 +1491,17 @@ def str_method(interp, st, recv, name, args, kwargs, node):
             if sep.concrete and len(sep.v) == 0:
                 yield st, exc(ValueError, "empty separator")
                 return
-            i = z3.LastIndexOf(t, sep.term())
-            ls = z3.Length(sep.term())
+            # portable encoding of the LAST occurrence (seq.last_indexof is understood by z3 5.x only): a fresh position i with
+            # t[i:i+ls] == sep and no occurrence starting after i (any later occurrence lies wholly inside t[i+1:])
+            i = z3.Int(fresh_name('rpart'))
+            st_ = sep.term()
+            ls = z3.Length(st_)
             empty = mk_like(recv, mk_str(''))
             found = VTuple([mk_like(recv, z3.SubString(t, 0, i)), sep, mk_like(recv, z3.SubString(t, i + ls, n - i - ls))])
             notf = VTuple([empty, empty, recv])
-            yield from interp.alts(st, [(i >= 0, found), (i < 0, notf)])
+            g_found = z3.And(z3.Contains(t, st_), i >= 0, i + ls <= n, z3.SubString(t, i, ls) == st_,
+                             z3.Not(z3.Contains(z3.SubString(t, i + 1, n - i - 1), st_)))
+            yield from interp.alts(st, [(g_found, found), (z3.Not(z3.Contains(t, st_)), notf)])
             return
         raise Unsupported(f"{name} on symbolic string", node)
     if name == 'format':
